@@ -29,7 +29,7 @@ ASSUMPTIONS = ['statements inside the standard library are not preemption points
                'every thread is a fresh thread or a worker serving requests one after another; the application object is the module default app (redirect needs it)']
 
 KINDS = ['echo', 'post', 'raise_resp', 'abort', 'crash', 'nf', 'na', 'big', 'redirect', 'gen', 'multipart', 'json', 'chunked', 'noname_json',
-         'chunked_form', 'echo10', 'redirect10', 'session', 'static', 'static_denied', 'logout', 'relogin', 'bigfile', 'extattr', 'static_range', 'badpath_tail', 'prepared']
+         'chunked_form', 'echo10', 'redirect10', 'session', 'static', 'static_denied', 'logout', 'relogin', 'bigfile', 'extattr', 'static_range', 'badpath_tail', 'prepared', 'meta_post']
 _APP = {}
 
 
@@ -212,6 +212,11 @@ def get_app():
     app.route('/static/<name:path>', 'GET', lambda name: static_file(name, root=www))
     app.route('/session', 'GET', session)
     app.route('/logout', 'GET', logout)
+    def meta_post():
+        return 'meta len=%d meta=%r' % (len(rq.body.read()), rq.route.meta)
+
+    # a route registered through the router with user data of its own attached (inert for the framework)
+    app.router.add('/meta', 'POST', meta_post, meta={'max_body_size': 100000, 'max_memfile_size': 100000})
     app.route('/bigfile', 'GET', bigfile)
     app.route('/prepared', 'GET', prepared)
     app.route('/extattr', 'GET', extattr)
@@ -285,6 +290,8 @@ def make_env(kind, m):
         return make_environ('GET', '/extattr', qs='m=' + m, headers={'X-M': m, 'X-Forwarded-For': 'client-%s, proxy-%s' % (m, m),
                                                                      'Authorization': 'Basic ' + base64.b64encode(('user-%s:pw-%s' % (m, m)).encode()).decode()},
                             extra={'REMOTE_ADDR': 'addr-' + m, 'REMOTE_USER': 'ruser-' + m})
+    if kind == 'meta_post':
+        return make_environ('POST', '/meta', body=(m + ';') .encode() * (300 // (len(m) + 1)), qs='m=' + m)
     if kind == 'badpath_tail':
         # a path cut inside a UTF-8 sequence at its very end: 400 for this request, nothing for anybody else
         return make_environ('GET', '/x', raw_path='/echo/' + m + ('\xc3' if len(m) % 2 else '\xe6\x97'), qs='m=' + m, headers={'X-M': m})
@@ -346,7 +353,7 @@ class Lab:
             res, info = self.sched.run([job(self.app, [(kind, m)])], [])
             assert res[0][0] == 'ok', res
             status = res[0][1][0][0]
-            expect_ok = kind in ('echo', 'post', 'raise_resp', 'gen', 'multipart', 'json', 'chunked', 'redirect', 'chunked_form', 'echo10', 'redirect10', 'session', 'static', 'logout', 'relogin', 'bigfile', 'extattr', 'static_range', 'prepared')
+            expect_ok = kind in ('echo', 'post', 'raise_resp', 'gen', 'multipart', 'json', 'chunked', 'redirect', 'chunked_form', 'echo10', 'redirect10', 'session', 'static', 'logout', 'relogin', 'bigfile', 'extattr', 'static_range', 'prepared', 'meta_post')
             if expect_ok and not status.startswith(('2', '3')) and self.ctx is not None:
                 # these requests succeed in a process that has served nothing else (every kind is run on the unchanged tree):
                 # failing alone, after the earlier requests of this process, is itself dependence on other requests
@@ -419,7 +426,7 @@ class Lab:
 
 PAIRS_QUICK = [('echo', 'echo'), ('echo', 'post'), ('raise_resp', 'echo'), ('crash', 'abort'), ('big', 'big'), ('nf', 'redirect'), ('gen', 'echo'), ('na', 'post'),
                ('multipart', 'json'), ('json', 'echo'), ('chunked', 'chunked'), ('chunked', 'post'), ('noname_json', 'noname_json'), ('multipart', 'multipart'),
-               ('chunked_form', 'chunked_form'), ('chunked_form', 'echo'), ('echo10', 'echo10'), ('redirect10', 'echo10'), ('session', 'session'), ('static', 'static_denied'), ('static', 'static'), ('logout', 'relogin'), ('relogin', 'relogin'), ('bigfile', 'bigfile'), ('gen', 'gen'), ('gen', 'bigfile'), ('extattr', 'extattr'), ('static_range', 'static_range'), ('static_range', 'static'), ('badpath_tail', 'echo'), ('badpath_tail', 'badpath_tail'), ('prepared', 'prepared')]
+               ('chunked_form', 'chunked_form'), ('chunked_form', 'echo'), ('echo10', 'echo10'), ('redirect10', 'echo10'), ('session', 'session'), ('static', 'static_denied'), ('static', 'static'), ('logout', 'relogin'), ('relogin', 'relogin'), ('bigfile', 'bigfile'), ('gen', 'gen'), ('gen', 'bigfile'), ('extattr', 'extattr'), ('static_range', 'static_range'), ('static_range', 'static'), ('badpath_tail', 'echo'), ('badpath_tail', 'badpath_tail'), ('prepared', 'prepared'), ('meta_post', 'big'), ('meta_post', 'meta_post')]
 
 
 def one_preemption(ctx, lab, a, b, stride=1):
